@@ -7,15 +7,22 @@ inside catch_unwind (debug build; thorough: also the release build, which aborts
 ELF64 / PE files over all section-table layouts, payload sizes, truncations and field corruptions; the
 extracted model answers the same lines and must agree byte for byte.  The property oracle is written
 in python from the property text (tools/exe_lib.py parsers) and looks only at what the implementation
-did.  Real-binary leg: the freshly built rjrssync is augmented by the real code and executed."""
+did.  Real-binary leg: the freshly built rjrssync is augmented by the real code and executed.
+Deployment leg (both tiers): the real CLI deploys through a fake ssh/scp (tools/deploy_lib.py: OpenSSH mode
+semantics, a real shell on the remote side) to sandboxed remotes that report the native or another platform, so
+both staging paths of create_binary_for_target run; the deployed file must be executable, start, announce the
+parent's version, list the parent's embedded binaries and be byte for byte what the specification says; the
+commands and file modes the fake tools saw are compared with Model/DeployFile.v (extracted)."""
 import os, sys, json, struct, tempfile, shutil, subprocess, hashlib, glob, time
 import vlib
 import exe_lib as X
+import deploy_lib as D
 
 THEOREMS = ['C19_no_panic', 'C19_total', 'C19_no_panic_refuted', 'C19_no_panic_refuted_release',
             'C19_le_roundtrip', 'C19_field_roundtrip', 'C19_field_frame', 'C19_section_name_is_code',
             'C19_elf_roundtrip', 'C19_elf_preserves', 'C19_pe_roundtrip', 'C19_pe_sections',
-            'C19_example_elf', 'C19_example_pe']
+            'C19_example_elf', 'C19_example_pe',
+            'C19_deployed_file_executable', 'C19_deploy_steps', 'C19_chmod_needed', 'C19_copyself_hides_chmod', 'C19_example_deploy']
 
 NAME = X.NAME
 
@@ -373,6 +380,8 @@ def detect_fixed(binary, corpus):
 
 
 def run_batch(run, cases, binary, jbin, mode, fx, follow=True):
+    if not cases:
+        return []
     lines = [req(c) for c in cases]
     t0 = time.time()
     impl = X.run_impl(binary, lines, abort_ok=(mode == 'release'))
@@ -520,73 +529,339 @@ def real_binary_leg(run, binary, tmp, label):
     return big
 
 
-FAKE_SSH = r'''#!/bin/sh
-# $1 = [user@]host, $2 = remote command; the "remote" /var/tmp is a sandbox directory
-printf 'ssh %s\n' "$2" >> "$FAKE_LOG"
-case "$2" in
-  *"Remote system is"*) echo "Remote system is Linux fakehost 5.0 #1 SMP aarch64 GNU/Linux"; exit 0;;
-  *"--doer"*) if [ ! -x "$FAKE_REMOTE/rjrssync/rjrssync" ]; then   # what bash on a real remote says
-      echo "bash: line 1: /var/tmp/rjrssync/rjrssync: No such file or directory" >&2; exit 127; fi;;
-esac
-cmd=$(printf '%s' "$2" | sed "s#/var/tmp#${FAKE_REMOTE}#g")
-exec sh -c "$cmd"
-'''
-FAKE_SCP = r'''#!/bin/sh
-# scp -r <staging dir> host:/var/tmp
-printf 'scp %s %s %s\n' "$1" "$2" "$3" >> "$FAKE_LOG"
-mkdir -p "$FAKE_REMOTE"
-exec cp -r "$2" "$FAKE_REMOTE/"
-'''
+# ------------------------------------------------------------------------------------------------
+# Deployment leg: "The binary that deployment places on a remote starts, passes the version handshake and
+# reports the same embedded binaries as its parent."  The real CLI deploys through a fake ssh/scp
+# (tools/deploy_lib.py) to a sandboxed remote whose reported OS / architecture is set per scenario, so that
+# both staging paths of create_binary_for_target run: copy of the running program (remote = native triple)
+# and a generated big binary (create_big_binary: embedded lite binary + the parent's table).
+def native_triple():
+    try:
+        out = subprocess.run(['rustc', '-vV'], stdout=subprocess.PIPE, stderr=subprocess.DEVNULL, text=True, timeout=30).stdout
+        for l in out.splitlines():
+            if l.startswith('host:'):
+                return l.split()[1]
+    except (OSError, subprocess.SubprocessError):
+        pass
+    return os.uname().machine + '-unknown-linux-gnu'
 
 
-def deploy_leg(run, lite, tmp):
-    """Self-propagation through the real deployment path: a parent (lite binary + embedded table whose
-    aarch64 entry is the lite binary itself) deploys to a fake remote that claims to be aarch64 Linux, so
-    create_binary_for_target must extract, call add_section_to_elf and upload; the uploaded binary then
-    runs as the remote doer (version handshake) and must list the same embedded binaries."""
+def build_parents(run, lite, tmp, label, rng):
+    """lite: the built rjrssync.  Returns {name: parent dict}; the augmented parents are made by the real
+    add_section_to_elf (harness) from a table written by python from the struct definition."""
     litebytes = open(lite, 'rb').read()
-    payload = bincode_embedded([(b'aarch64-unknown-linux-musl', litebytes), (b'x86_64-pc-windows-gnu', X.gen_payload(1000, 4))])
-    pf = os.path.join(tmp, 'dep_payload.bin'); open(pf, 'wb').write(payload)
-    parent = os.path.join(tmp, 'parent_rjrssync')
-    out = X.run_impl(lite, ['add-elf F:%s %s F:%s O:%s' % (lite, NAME.hex(), pf, parent)])
-    run.case(('deploy', 'parent'), True)
-    if not out or not out[0].startswith('OK'):
-        run.fail('C19 deploy: cannot build the parent binary', {'answer': out[:1]}); return
-    os.chmod(parent, 0o755)
-    fb = os.path.join(tmp, 'fakebin'); os.makedirs(fb, exist_ok=True)
-    for n, s in (('ssh', FAKE_SSH), ('scp', FAKE_SCP)):
-        open(os.path.join(fb, n), 'w').write(s); os.chmod(os.path.join(fb, n), 0o755)
-    remote = os.path.join(tmp, 'remote_var_tmp')
-    d = os.path.join(tmp, 'dep'); os.makedirs(os.path.join(d, 'src'))
-    open(os.path.join(d, 'src', 'f.txt'), 'w').write('deployed')
-    env = {'PATH': fb + os.pathsep + os.environ.get('PATH', ''), 'FAKE_REMOTE': remote, 'FAKE_LOG': os.path.join(tmp, 'fake.log')}
-    rc, so, se = runp([parent, '--deploy', 'ok', os.path.join(d, 'src') + '/', 'localhost:' + os.path.join(d, 'dest') + '/'], env=env, timeout=300)
-    run.count('deploy-leg')
-    run.case(('deploy', 'sync'), True)
-    child = os.path.join(remote, 'rjrssync', 'rjrssync')
-    log = open(os.path.join(tmp, 'fake.log')).read() if os.path.exists(os.path.join(tmp, 'fake.log')) else ''
-    if rc != 0 or not os.path.exists(child) or not os.path.exists(os.path.join(d, 'dest', 'f.txt')):
-        run.fail('C19 deploy: sync through a freshly deployed binary failed: exit %d, deployed=%s' % (rc, os.path.exists(child)),
-                 {'stdout': so[-800:], 'stderr': se[-800:], 'fake_log': log[-800:]})
+    pe, _ = X.PeLayout(3, 512, 100).build(rng)            # a lite "Windows binary": cannot run here, its bytes can be checked
+    parents = {'lite': {'name': 'lite', 'path': lite, 'table': None, 'entries': [], 'compressed': False,
+                        'desc': 'the built binary itself (no embedded binaries)'}}
+    specs = [('big', False, [(b'x86_64-pc-windows-gnu', pe), (b'aarch64-unknown-linux-musl', litebytes)]),
+             ('bigz', True, [(b'aarch64-unknown-linux-gnu', litebytes), (b'x86_64-pc-windows-msvc', pe)])]
+    for name, comp, entries in specs:
+        table = D.table_bytes(entries, compressed=comp)
+        pf = os.path.join(tmp, 'table_%s_%s.bin' % (label, name))
+        open(pf, 'wb').write(table)
+        path = os.path.join(tmp, 'parent_%s_%s' % (label, name), 'rjrssync')
+        os.makedirs(os.path.dirname(path))
+        out = X.run_impl(lite, ['add-elf F:%s %s F:%s O:%s' % (lite, NAME.hex(), pf, path)])
+        run.case(('deploy', label, 'parent', name), True)
+        if not out or not out[0].startswith('OK'):
+            run.fail('C19 deploy: add_section_to_elf cannot add the embedded-binaries table to the built rjrssync: %s' % (out[:1],),
+                     {'deploy_parent': name, 'answer': out[:1]})
+            continue
+        os.chmod(path, 0o755)
+        parents[name] = {'name': name, 'path': path, 'table': table, 'entries': entries, 'compressed': comp,
+                         'desc': 'built binary + %s table %s' % ('compressed' if comp else 'uncompressed', [t.decode() for t, _ in entries])}
+    for p in parents.values():
+        p['mode'] = D.mode_of(p['path'])
+        p['probe'] = probe_binary(p['path'])
+    return parents
+
+
+def probe_binary(path):
+    """What the property says a deployed binary must do like its parent: start, announce its version for
+    the handshake, list its embedded binaries.  -> dict of canonical observations."""
+    r = {}
+    v = runp([path, '--version'], timeout=60)
+    r['version'] = (v[0], v[1].strip())
+    l = runp([path, '--list-embedded-binaries'], timeout=120)
+    r['list'] = (l[0], l[1])
+    try:
+        p = subprocess.Popen([path, '--doer'], stdin=subprocess.PIPE, stdout=subprocess.PIPE, stderr=subprocess.PIPE)
+        try:
+            line = p.stdout.readline().decode('utf-8', 'replace').rstrip('\n')
+        finally:
+            p.stdin.close()
+            try:
+                p.wait(timeout=20)
+            except subprocess.TimeoutExpired:
+                p.kill(); p.wait()
+            p.stdout.close(); p.stderr.close()
+        r['doer_announce'] = line
+    except OSError as e:
+        r['doer_announce'] = 'cannot start: %s' % e.strerror
+    return r
+
+
+HOST_NAMES = ['localhost', '127.0.0.1']
+
+
+def sc_describe(sc):
+    hs = ', '.join('%s side: fake %s remote "%s" (rjrssync %s, umask %03o)' % (h['side'], h['kind'], h['uname'], h['state'], h['rumask'])
+                   for h in sc['hosts'])
+    return 'parent=%s (%s build) --deploy %s, %s, boss umask %03o, TMPDIR %s' % (sc['parent'], sc.get('build', 'debug'), sc['deploy'], hs,
+                                                                              sc['bumask'], sc['tmpdir'] or 'default')
+
+
+def mk_sc(parent, kind, state='absent', deploy='ok', uname=None, rumask=0o22, bumask=0o22, tmpdir=None, side='dest', second=None, tree=1):
+    hosts = [{'side': side, 'kind': kind, 'uname': uname or (kind if kind != 'windows' else 'windows'), 'state': state, 'rumask': rumask}]
+    if second:
+        hosts.append(second)
+    return {'parent': parent, 'deploy': deploy, 'bumask': bumask, 'tmpdir': tmpdir, 'hosts': hosts, 'tree': tree}
+
+
+def deploy_scenarios(run, tier):
+    rng = run.rng
+    core = [
+        mk_sc('big', 'aarch64'),                                               # generated binary, nothing on the remote
+        mk_sc('big', 'x86_64'),                                                # copy of the running program
+        mk_sc('lite', 'x86_64', uname='x86_64-alpine'),                        # a lite binary can deploy itself to the same platform
+        mk_sc('big', 'aarch64', state='other-version'),                        # version mismatch: the old program is replaced
+        mk_sc('big', 'aarch64', state='same-noexec', deploy='force'),          # earlier deployment interrupted before its chmod
+        mk_sc('big', 'x86_64', state='other-version', deploy='prompt'),
+        mk_sc('bigz', 'aarch64', state='empty-dir', uname='aarch64-alpine', rumask=0o77, bumask=0o77, tmpdir='stag ing'),
+        mk_sc('big', 'windows'),                                               # generated PE: bytes only
+        mk_sc('bigz', 'x86_64', state='same', deploy='force', rumask=0o02),
+    ]
+    space = []
+    for parent in ('big', 'bigz', 'lite'):
+        for kind in ('aarch64', 'x86_64', 'windows'):
+            if parent == 'lite' and kind != 'x86_64':
+                continue
+            for state, deploy in (('absent', 'ok'), ('absent', 'prompt'), ('empty-dir', 'ok'), ('other-version', 'ok'), ('other-version', 'force'),
+                                  ('same', 'force'), ('same-noexec', 'force'), ('absent', 'force')):
+                if kind == 'windows' and state in ('other-version', 'same', 'same-noexec'):
+                    continue
+                for side in ('dest', 'src'):
+                    space.append((parent, kind, state, deploy, side))
+    n = 30 if tier == 'thorough' else 3
+    for (parent, kind, state, deploy, side) in rng.sample(space, n):
+        unames = [kind, kind + '-alpine'] if kind != 'windows' else [None]
+        core.append(mk_sc(parent, kind, state=state, deploy=deploy, side=side, uname=rng.choice(unames), rumask=rng.choice([0o22, 0o22, 0o02, 0o77, 0o27]),
+                          bumask=rng.choice([0o22, 0o22, 0o02, 0o77, 0]), tmpdir=rng.choice([None, None, 'stag ing', 'a/b/c', 'ünï']), tree=rng.randrange(1, 1000)))
+    # both sides remote, two hosts of different kinds: two deployments in one run
+    core.append(mk_sc('big', 'x86_64', side='src', second={'side': 'dest', 'kind': 'aarch64', 'uname': 'aarch64', 'state': 'absent', 'rumask': 0o22}))
+    if tier == 'thorough':
+        core.append(mk_sc('bigz', 'aarch64', side='src', state='other-version',
+                          second={'side': 'dest', 'kind': 'aarch64', 'uname': 'aarch64-alpine', 'state': 'same-noexec', 'rumask': 0o27}, deploy='force'))
+        core.append(mk_sc('big', 'windows', side='src', second={'side': 'dest', 'kind': 'x86_64', 'uname': 'x86_64', 'state': 'absent', 'rumask': 0o22}))
+    return core
+
+
+def sync_tree(seed):
+    r = __import__('random').Random(seed)
+    t = {'': {'k': 'dir'}, 'a.txt': {'k': 'file', 'data': b'deployed %d' % seed, 'mtime_ns': 1600000000 * 10**9},
+         'sub': {'k': 'dir'}, 'sub/b.bin': {'k': 'file', 'len': r.choice([0, 1, 5000, 70000]), 'fill': seed, 'mtime_ns': 1500000000 * 10**9}}
+    if r.random() < 0.5:
+        t['sub/deeper'] = {'k': 'dir'}
+        t['sub/deeper/c'] = {'k': 'file', 'len': r.randrange(0, 300), 'fill': seed + 1, 'mtime_ns': 1400000000 * 10**9}
+    return t
+
+
+def snap_content(s):
+    return {k: v[:3] if v[0] == 'file' else v for k, v in s.items()}
+
+
+def expected_deployed(parent, kind, ctx):
+    """What the property text and the doc comment of create_binary_for_target say is placed on the remote:
+    native target -> the running program itself; otherwise Big_p = Lite_p + Embed(table of the parent)."""
+    if ctx['native'] in D.COMPATIBLE[kind]:
+        return 'self', None
+    cands = [(t, d) for (t, d) in parent['entries'] if t.decode() in D.COMPATIBLE[kind]]
+    if not cands:
+        return 'none', None
+    return 'generated', cands
+
+
+def check_deployed_bytes(parent, kind, ctx, deployed):
+    """-> error text or None.  `deployed`: bytes of the file found on the remote."""
+    how, cands = expected_deployed(parent, kind, ctx)
+    if how == 'self':
+        if 'sha' not in parent:
+            parent['sha'] = D.sha_file(parent['path'])
+        if D.sha(deployed) != parent['sha']:
+            return 'the remote platform is the native one, but the deployed file is not a copy of the running program'
+        return None
+    if how == 'none':
+        return 'a file was deployed although the parent has no binary for this platform'
+    errs = []
+    for triple, data in cands:              # any compatible entry is acceptable
+        if kind == 'windows':
+            c = case('add-pe', data, NAME, ('H', parent['table']), 'deploy')
+            bad = pe_oracle(c, deployed)
+            if bad is None and not c.get('wf'):
+                bad = 'the lite PE is outside the layouts the oracle knows'
+            if bad is None:
+                q = X.pe_parse(deployed); new = q['sections'][-1]
+                got = deployed[new['ptr']:new['ptr'] + new['raw']]
+                if got[:len(parent['table'])] != parent['table'] or any(got[len(parent['table']):]):
+                    bad = 'the embedded table read back from the deployed PE is not the parent\'s table (++ zeros)'
+        else:
+            c = case('add-elf', data, NAME, ('H', parent['table']), 'deploy')
+            bad = elf_oracle(c, deployed)
+            if bad is None and not c.get('wf'):
+                bad = 'the lite ELF is outside the layouts the oracle knows'
+            if bad is None:
+                q = X.elf_parse(deployed); new = q['sections'][-1]
+                if deployed[new['off']:new['off'] + new['size']] != parent['table']:
+                    bad = 'the embedded table read back from the deployed ELF is not the parent\'s table'
+        if bad is None:
+            return None
+        errs.append('%s: %s' % (triple.decode(), bad))
+    return 'the deployed file is not <embedded lite binary for the remote platform> + <the parent\'s table>: ' + '; '.join(errs)
+
+
+def run_deploy_scenario(run, ctx, sc, idx):
+    """Runs one scenario on the real CLI, evaluates the property oracle and the model correspondence."""
+    from e2e import build_tree, snapshot, tree_to_snapshot
+    parent = ctx['parents'].get(sc['parent'])
+    if parent is None:
         return
-    if 'scp' not in log:
-        run.fail('C19 deploy: no deployment happened', {'fake_log': log[-800:]}); return
-    pl, cl = runp([parent, '--list-embedded-binaries']), runp([child, '--list-embedded-binaries'])
-    run.case(('deploy', 'list'), True)
-    if pl[0] != 0 or cl[0] != 0 or pl[1] != cl[1]:
-        run.fail('C19 deploy: the deployed binary reports different embedded binaries than its parent: %r vs %r' % (cl[:2], pl[:2]), {})
-    childb = open(child, 'rb').read()
-    c = case('add-elf', litebytes, NAME, ('H', payload), 'deploy')
-    bad = elf_oracle(c, childb)
-    if bad or childb != open(parent, 'rb').read():
-        run.fail('C19 deploy: the deployed binary is not lite + embedded table (%s)' % (bad or 'differs from what add_section_to_elf gives'), {})
-    run.notes.append('deploy leg: parent (lite + table) deployed a big binary built by create_big_binary to a fake aarch64 remote; the deployed doer passed the handshake and synced; embedded listing equal')
+    desc = sc_describe(dict(sc, build=ctx['label']))
+    replay = {'deploy_scenario': sc, 'build': ctx['label'], 'description': desc}
+    root = os.path.join(ctx['tmp'], 'dep_%s_%d' % (ctx['label'], idx))
+    os.makedirs(root)
+    hosts, existing = {}, {}
+    for i, h in enumerate(sc['hosts']):
+        name = HOST_NAMES[i]
+        hosts[name] = D.make_host(root, name, h['kind'], h['uname'], h['rumask'], h['state'], same_binary=ctx['lite'])
+        existing[name] = D.mode_of(D.remote_bin_path(root, name, h['kind'] == 'windows'))
+    env, logf = D.fake_env(root, ctx['fakebin'], hosts)
+    env['RJRSSYNC_TEST_PROMPT_RESPONSE'] = '2:needs to be deployed:Deploy' if sc['deploy'] == 'prompt' else ''
+    if sc['tmpdir']:
+        td = os.path.join(root, 'tmp', sc['tmpdir'])
+        os.makedirs(td)
+        env['TMPDIR'] = td
+    tree = sync_tree(sc['tree'])
+    srcdir, destdir = os.path.join(root, 'tree_src'), os.path.join(root, 'tree_dest')
+    build_tree(srcdir, tree)
+    spec = {'src': srcdir + '/', 'dest': destdir + '/'}
+    for i, h in enumerate(sc['hosts']):
+        spec[h['side']] = HOST_NAMES[i] + ':' + spec[h['side']]
+    cmd = [parent['path'], '--deploy', 'ok' if sc['deploy'] == 'prompt' else sc['deploy']]
+    if sc['deploy'] == 'prompt':
+        cmd = [parent['path'], '--deploy', 'prompt']
+    cmd += [spec['src'], spec['dest']]
+    e = dict(os.environ); e.pop('RUST_LOG', None); e['NO_COLOR'] = '1'; e.update(env)
+    bumask = sc['bumask']
+    t0 = time.time()
+    p = subprocess.Popen(cmd, stdout=subprocess.PIPE, stderr=subprocess.PIPE, stdin=subprocess.DEVNULL, env=e, start_new_session=True,
+                         preexec_fn=lambda: os.umask(bumask))
+    try:
+        so, se = p.communicate(timeout=300)
+        timed_out = False
+    except subprocess.TimeoutExpired:
+        timed_out = True
+        try:
+            os.killpg(p.pid, 9)
+        except ProcessLookupError:
+            pass
+        so, se = p.communicate()
+    rc = p.returncode
+    ctx['t_cli'] = ctx.get('t_cli', 0) + time.time() - t0
+    so, se = so.decode('utf-8', 'replace'), se.decode('utf-8', 'replace')
+    log = D.read_log(logf)
+    run.count('deploy:%s:%s' % (ctx['label'], '+'.join('%s/%s/%s' % (sc['parent'], h['kind'], h['state']) for h in sc['hosts'])))
+    run.count('deploy-scenarios')
+    run.case(('deploy', ctx['label'], json.dumps(sc, sort_keys=True)), True,
+             sample={'deploy_scenario': desc, 'exit': rc, 'steps': [d.get('kind') for d in log]} if idx == 0 else None)
+    replay.update({'exit': rc, 'stdout': so[-1200:], 'stderr': se[-1200:],
+                   'fake_log': [{k: v for k, v in d.items() if k != 't'} for d in log][-12:]})
+    any_windows = any(h['kind'] == 'windows' for h in sc['hosts'])
+    synced = snap_content(snapshot(destdir)) == snap_content(tree_to_snapshot(tree))
+    fails = []
+    if timed_out:
+        fails.append('the run did not finish within 300 s')
+    for i, h in enumerate(sc['hosts']):
+        name, windows = HOST_NAMES[i], h['kind'] == 'windows'
+        hlog = [d for d in log if d.get('host') == name]
+        tr = D.observed_trace(hlog, windows)
+        rfile = D.remote_bin_path(root, name, windows)
+        how, _ = expected_deployed(parent, h['kind'], ctx)
+        who = '%s side (fake %s remote, rjrssync %s)' % (h['side'], h['kind'], h['state'])
+        if tr is None or 'scp' not in [k for k, _ in tr['tokens']]:
+            # a later host is never reached when an earlier one failed or was the fake Windows host (nothing starts there)
+            if i == 0 or not (fails or any(x['kind'] == 'windows' for x in sc['hosts'][:i])):
+                fails.append('%s: no deployment happened (exit %d)' % (who, rc))
+            continue
+        run.count('deploy-path:' + how)
+        # --- correspondence: mode trace of the model vs what the fake tools saw
+        started = 1 if (rc == 0 and synced) else 0
+        obs = 'STEPS staged=%s %s' % (tr['staged_mode'], ' '.join('%s=%s' % (k, ('-' if v is None else v) if k != 'launch' else started)
+                                                                      for k, v in tr['tokens']))
+        line = 'deploy %d %d %d %d %d %d %s' % (1 if windows else 0, 1 if how == 'self' else 0, 1 if os.geteuid() == 0 else 0, parent['mode'],
+                                                bumask, h['rumask'], '-' if existing[name] is None else existing[name])
+        model = X.run_judge(ctx['jbin'], [line])[0]
+        if windows or any_windows and rc != 0:      # nothing can be started on / after the fake Windows host
+            obs, model = obs.rsplit(' launch=', 1)[0], model.rsplit(' launch=', 1)[0]
+        run.traces_validated += 1
+        corr_bad = obs != model
+        # --- property oracle
+        if not os.path.isfile(rfile):
+            fails.append('%s: after the deployment there is no program file on the remote' % who)
+            continue
+        deployed = open(rfile, 'rb').read()
+        bad = check_deployed_bytes(parent, h['kind'], ctx, deployed)
+        if bad:
+            fails.append('%s: %s' % (who, bad))
+        if windows:
+            if corr_bad:
+                run.broke('correspondence', 'deploy-steps', json.dumps({'scenario': desc, 'request': line, 'model': model, 'observed': obs}))
+            continue
+        m = D.mode_of(rfile)
+        if not (m & 0o100) or not os.access(rfile, os.X_OK):
+            fails.append('%s: the deployed program file is not executable (mode %04o; staged with mode %s, commands after the upload: %s)'
+                         % (who, m, 'unknown' if tr['staged_mode'] is None else '%04o' % tr['staged_mode'], [k for k, _ in tr['tokens']][1:]))
+        else:
+            key = D.sha(deployed)
+            if key not in ctx['probes']:
+                ctx['probes'][key] = probe_binary(rfile)
+            pr = ctx['probes'][key]
+            for what, k in (('--version', 'version'), ('the version it announces for the handshake (first line of --doer)', 'doer_announce'),
+                            ('--list-embedded-binaries', 'list')):
+                if pr[k] != parent['probe'][k]:
+                    fails.append('%s: the deployed binary differs from its parent in %s: %r vs %r' % (who, what, pr[k], parent['probe'][k]))
+        if corr_bad and not fails:
+            run.broke('correspondence', 'deploy-steps', json.dumps({'scenario': desc, 'request': line, 'model': model, 'observed': obs}))
+        elif corr_bad:
+            replay['model_trace'], replay['observed_trace'] = model, obs
+    if not any_windows:
+        if rc != 0:
+            fails.insert(0, 'the sync through the freshly deployed binary failed with exit %d (%s)' % (rc, ' | '.join(
+                l.strip() for l in (so + se).splitlines() if 'ERROR' in l or 'denied' in l)[-300:]))
+        elif not synced:
+            fails.append('exit 0 but the destination does not mirror the source')
+    if fails:
+        run.fail('C19 deploy [%s]: %s' % (desc, '; '.join(fails)), replay)
+    shutil.rmtree(root, ignore_errors=True)
+
+
+def deploy_leg(run, lite, jbin, tmp, label, only=None):
+    ctx = {'lite': lite, 'jbin': jbin, 'tmp': tmp, 'label': label, 'native': native_triple(), 'probes': {},
+           'fakebin': D.install_tools(os.path.join(tmp, 'fake_' + label))}
+    t0 = time.time()
+    ctx['parents'] = build_parents(run, lite, tmp, label, __import__('random').Random(7))
+    t_par = time.time() - t0
+    scs = only if only is not None else deploy_scenarios(run, run.tier)
+    for i, sc in enumerate(scs):
+        run_deploy_scenario(run, ctx, sc, i)
+    vlib.log('deploy leg %s: %d scenarios %.1fs (parents %.1fs, CLI runs %.1fs; native triple %s)' % (label, len(scs), time.time() - t0, t_par, ctx.get('t_cli', 0), ctx['native']))
+    run.notes.append('deploy leg (%s build): %d scenarios through fake ssh/scp; native triple %s' % (label, len(scs), ctx['native']))
 
 
 # ------------------------------------------------------------------------------------------------
-def check(run, only=None):
+def check(run, only=None, deploy_only=None):
     run.trusted = list(vlib.COMMON_TRUSTED) + [
-        'modelled, not verified: the ELF and PE loaders (the theorems state which bytes and headers are preserved; that the augmented program runs is checked by executing the augmented rjrssync itself), memory exhaustion (generated FileAlignment values stay below 1 MiB), ssh/scp (faked in the deploy leg)',
+        'modelled, not verified: the ELF and PE loaders (the theorems state which bytes and headers are preserved; that the augmented program runs is checked by executing the augmented rjrssync itself), memory exhaustion (generated FileAlignment values stay below 1 MiB)',
+        'deployment leg: ssh, scp, chmod +x and execve are not code of the repository; Model/DeployFile.v models their documented permission-bit behaviour (scp without -p: new file = source mode masked by the remote umask, existing file keeps its mode; chmod +x adds the unmasked x bits; exec needs an x bit) and tools/deploy_lib.py implements the same (python scp, real bash/chmod/exec under the remote umask). No real remote, no Windows/PE execution (a generated PE is checked byte-wise only)',
         'python readers of ELF64/PE in tools/exe_lib.py (property oracle)']
     run.assumptions = ['usize is 64 bit (the model uses 2^64 for usize arithmetic; the harness runs on x86_64)',
                        'Vec lengths stay below 2^63, so read_string cannot overflow its index']
@@ -594,7 +869,10 @@ def check(run, only=None):
                          'with/without null section, varying gaps; PE files: FileAlignment in {1..4096 incl. non powers of two} x header gap {0..80} x 1..5 sections, varying SectionAlignment / optional header size / e_lfanew; '
                          'payloads 0 B .. 3 MiB; every add that succeeds is followed by an extraction from the produced file and sometimes a second add; names around the 8/32 byte caps; '
                          'malformed: truncations at every (quick: every third) length, single-field corruptions with boundary values, random strings with valid magic, random byte mutations; '
-                         'a case is non-trivial when it is malformed or the implementation produced a file / read a payload back; distinct by (mode, op, sha1 of the file, name, payload)')
+                         'a case is non-trivial when it is malformed or the implementation produced a file / read a payload back; distinct by (mode, op, sha1 of the file, name, payload); '
+                         'deployment scenarios: parent {built binary, + uncompressed table, + compressed table} x remote {x86_64 = native: copy of the running program; aarch64: generated ELF; Windows AMD64: generated PE, bytes only} '
+                         'x remote state {absent, empty folder, other version, same version, same version without x bit} x --deploy {ok, force, prompt answered} x remote side {dest, src, both on two hosts} '
+                         'x umasks of boss and remote x TMPDIR (default, with a space, nested, non-ASCII): 9 fixed + 3 random + 1 two-host scenario (thorough: 9 + 30 + 3, debug and release builds)')
     binary = vlib.build_impl()
     vlib.regen_facts(binary)
     run.check_proofs('C19', THEOREMS, extra_targets=['theories/Extract/Ex_exe.vo'])
@@ -607,7 +885,7 @@ def check(run, only=None):
         run.notes.append('model variant compared: ' + ('fixed code (fx=1)' if fixed else 'pinned code (fx=0) - the F9 witnesses still panic'))
         cases = corpus + (gen_cases(run, run.tier) if only is None else [])
         modes = [('debug', binary)]
-        if run.tier == 'thorough':
+        if run.tier == 'thorough' or (deploy_only is not None and deploy_only[0] == 'release'):
             modes.append(('release', vlib.build_impl(release=True)))
         for mode, b in modes:
             fol = run_batch(run, cases, b, jbin, mode, fixed)
@@ -615,8 +893,10 @@ def check(run, only=None):
         if only is None:
             for mode, b in modes:
                 real_binary_leg(run, b, tmp, mode)
-            if run.tier == 'thorough':
-                deploy_leg(run, modes[-1][1], tmp)
+        if only is None or deploy_only is not None:
+            for mode, b in modes:
+                if deploy_only is None or deploy_only[0] == mode:
+                    deploy_leg(run, b, jbin, tmp, mode, only=None if deploy_only is None else [deploy_only[1]])
         run.extra['notes'] = run.notes
     finally:
         shutil.rmtree(tmp, ignore_errors=True)
@@ -626,6 +906,8 @@ def check(run, only=None):
 def replay(run, path):
     r = json.load(open(path))
     print(json.dumps({k: (v if not isinstance(v, str) or len(v) < 200 else v[:200] + '...') for k, v in r.items()}, indent=1))
+    if 'deploy_scenario' in r:
+        return check(run, only=[], deploy_only=(r.get('build', 'debug'), r['deploy_scenario']))
     if 'op' not in r:
         return check(run)
     pl = None
